@@ -16,6 +16,7 @@ ASSUMPTIONS = ["Util::generateUuid returns distinct values"]
 
 
 def run(ctx):
+    detector_walk_every_tick(ctx, "C06")
     # locals / parameters the rules below refer to by name (a rename makes the analysis 'broken', never a violation)
     ctx.anchor(ctx.fn1('Oomd::Engine::Ruleset::runOnceImpl'), 'target', 'it', 'context')
     ctx.anchor(ctx.fn1('Oomd::Engine::Ruleset::run_action_chain'), 'action', 'context')
